@@ -33,7 +33,9 @@ import ast
 
 KINDS = ['if', 'while', 'for', 'and', 'or', 'not', 'ifexp', 'call']
 OPS = {'if_stmt': 'if', 'while_stmt': 'while', 'for_stmt': 'for', 'and_': 'and', 'or_': 'or', 'not_': 'not',
-       'if_exp': 'ifexp', 'converted_call': 'call'}
+       'if_exp': 'ifexp', 'converted_call': 'call',
+       # under Feature.LISTS `l.append(x)` / `l.pop()` / `l.stack()` are routed through these operators instead
+       'list_append': 'call', 'list_pop': 'call', 'list_stack': 'call'}
 EXACT = ('while', 'for')
 DEBUGGERS = ('pdb.set_trace', 'ipdb.set_trace', 'breakpoint')
 
